@@ -331,7 +331,8 @@ fn cfgs(tier: Tier, kind: &str) -> Vec<Cfg> {
                 out.push(Cfg::new(se).with("imports_layout", "Vertical"));
             }
         } else if tier == Tier::Thorough {
-            out.push(Cfg::new(se).with("reorder_modules", "false"));
+            // `extern crate` declarations are governed by reorder_imports, `mod` declarations by reorder_modules
+            out.push(Cfg::new(se).with(if kind == "crate" { "reorder_imports" } else { "reorder_modules" }, "false"));
         }
     }
     out
@@ -644,7 +645,7 @@ fn check_list(u: &Unit, members: &[&str], _tier: Tier, sink: &mut Sink) {
                 vu.text = src.clone();
                 sink.violation("C11", &vu, width, "list output is not a permutation of the input names", o.text.clone());
             }
-            if width == 100 {
+            if width == 100 && u.cfg.get("reorder_imports") != Some("false") {
                 match firsts.get(&class) {
                     None => {
                         firsts.insert(class.clone(), (o.text.clone(), perm.clone()));
